@@ -4,7 +4,7 @@
    character to the key); [expected_calls] is the specification: every subscription whose prefix
    is a byte-prefix of the key, once, with the key stripped of that prefix. *)
 From Coq Require Import Lia.
-From ChitchatModel Require Import Base SMap Ids Bytes NodeState Listener SMap_lemmas Listener_lemmas.
+From ChitchatModel Require Import Base SMap Ids Bytes NodeState Listener SMap_lemmas Listener_lemmas GuardsGen GuardTie.
 
 (* For every sorted subscription map whose prefixes hold their complete first character (true of
    every valid UTF-8 string, next theorem), every key — empty key, multi-byte first character —
@@ -80,3 +80,20 @@ Proof.
   intros p ids Hin. vm_compute in Hin.
   destruct Hin as [E|[E|[E|[]]]]; injection E as <- _; unfold complete_first_char; vm_compute; lia.
 Qed.
+
+(* ---- the tie of the decision guards to the sources (GuardTie.v; see C14.v for the scheme) ---- *)
+(* which of two entries of a key wins in set_versioned_value — hence whether a listener event fires *)
+Theorem C15_acceptance_guard_is_the_source_guard :
+  (forall c k v, set_versioned_value c k v =
+     let mx := g_svv_max (v_ver v) (c_max c) in
+     let ev := if is_deleted v then [] else [(k, v_val v)] in
+     match kget k (c_kvs c) with
+     | Some old =>
+         if g_svv_older (v_ver old) (v_ver v)
+         then (mkCopy (c_hb c) (c_gc c) mx (c_kvs c), [])
+         else (mkCopy (c_hb c) (c_gc c) mx (kinsert k v (c_kvs c)), ev)
+     | None => (mkCopy (c_hb c) (c_gc c) mx (kinsert k v (c_kvs c)), ev)
+     end) /\
+  ((forall old ver, rs_svv_older old ver = g_svv_older old ver) \/ (forall old ver, rs_svv_older old ver = negb (g_svv_older old ver))).
+Proof. exact (conj set_versioned_value_is_the_tree tie_svv_older). Qed.
+Print Assumptions C15_acceptance_guard_is_the_source_guard.
